@@ -81,6 +81,66 @@ class SetVal:
 # ------------------------------------------------------------------------------------------------
 # specification builtins
 
+def _contains(t, vs_ids, memo):
+    k = t.get_id()
+    if k in memo:
+        return memo[k]
+    r = k in vs_ids or any(_contains(c, vs_ids, memo) for c in t.children())
+    memo[k] = r
+    return r
+
+
+def infer_patterns(body, vs):
+    """triggers for a universally quantified hypothesis: applications of uninterpreted functions whose arguments
+    are bound variables or variable-free terms (no arithmetic over a bound variable inside the trigger), so that
+    instantiation never feeds itself (no matching loops)."""
+    vs_ids = {v.get_id() for v in vs}
+    memo = {}
+    cands = []
+    seen = set()
+    todo = [body]
+    while todo:
+        t = todo.pop()
+        if t.get_id() in seen or not z3.is_app(t):
+            if z3.is_quantifier(t):
+                pass
+            continue
+        seen.add(t.get_id())
+        todo.extend(t.children())
+        if t.decl().kind() == z3.Z3_OP_UNINTERPRETED and t.num_args() > 0:
+            ok = True
+            covered = set()
+            for a in t.children():
+                if a.get_id() in vs_ids:
+                    covered.add(a.get_id())
+                elif _contains(a, vs_ids, memo):
+                    ok = False
+                    break
+            if ok and covered:
+                cands.append((t, covered))
+    # prefer reads of program buffers (fresh functions, named base!N) over specification functions: an
+    # instance then never creates a new term matching its own trigger
+    prog = [(t, c) for t, c in cands if '!' in t.decl().name()]
+    if prog:
+        cov = set()
+        for t, c in prog:
+            cov |= c
+        if cov == vs_ids:
+            cands = prog
+    full = [t for t, c in cands if c == vs_ids]
+    if full:
+        return full[:6]
+    # multi-pattern: greedy cover
+    chosen, cov = [], set()
+    for t, c in sorted(cands, key=lambda x: -len(x[1])):
+        if not c <= cov:
+            chosen.append(t)
+            cov |= c
+        if cov == vs_ids:
+            return [z3.MultiPattern(*chosen)] if len(chosen) > 1 else chosen
+    return []
+
+
 def _quant(ex, st, clo, q):
     fn = clo.node
     params = [a.arg for a in fn.args.args]
@@ -88,8 +148,17 @@ def _quant(ex, st, clo, q):
     s = st.copy()
     for p, v in zip(params, vs):
         s.env[p] = v
-    body = truthy(ex.eval(fn.body, s))
-    body = to_z3(body)
+    ex.pending_defs.append([])
+    try:
+        body = truthy(ex.eval(fn.body, s))
+    finally:
+        defs = ex.pending_defs.pop()
+    pats = []
+    if q is z3.ForAll and ex.spec_role == 'hyp' and z3.is_expr(body):
+        pats = infer_patterns(body, vs)
+    body = to_z3(ex.wrap_defs(defs, to_z3(body), ex.spec_role))
+    if pats:
+        return q(vs, body, patterns=pats)
     return q(vs, body)
 
 
@@ -481,7 +550,11 @@ def b_list(ex, st, v=None):
     if isinstance(v, ReversedVal):
         inner = v.inner
         if isinstance(inner, SeqVal):
-            raise Unsupported('reversed SeqVal: use contract-level reverse')
+            rev = z3.Function('REV_' + inner.elem.name, inner.s.sort(), inner.s.sort())
+            ex.assumed.append('model: list(reversed(xs)) is the mirror image REV(xs) (uninterpreted; same length)')
+            r = rev(inner.s)
+            st.assume(z3.Length(r) == z3.Length(inner.s))
+            return SeqVal(r, inner.elem)
         if isinstance(inner, (list, tuple)):
             return list(reversed(inner))
         a = as_array(st, inner)
